@@ -11,6 +11,13 @@ def plan(tier, seed):
                                                      "writer.make_part_file", "writer.write_common_metadata",
                                                      "api.ParquetFile._write_common_metadata"]),
             ch("C19", G, "h_multi_append", t, ["writer.write_multi", "writer.find_max_part", "api.part_ids"])]
+    for ids in (["1,2", "9,10"] if tier == "quick" else ["1,2", "0,1,2,3,4,5,6,7,8,9,10", "0,2,5", "7",
+                                                                            "9,10,11", "99,100"]):
+        j = ch("C19", G, "h_multi_append", t, ["writer.write_multi", "writer.find_max_part", "api.part_ids"],
+               shape=dict(old_ids=ids), env=dict(VERIF_OLD_IDS=ids))
+        j["name"] += "[ids=%s]" % ids
+        jobs.append(j)
+    jobs.append(ch("C19", G, "h_find_max_part", t, ["writer.find_max_part", "api.part_ids"]))
     try:
         from . import partnames
         jobs += partnames.jobs("C19", tier)
